@@ -23,8 +23,8 @@ def F(fuzz, seconds):
 CHECKS = {
     'C01': dict(
         level='exploration',
-        units=[U('^TestC01$', (8, 12000), (16, 150000))],
-        essential_labels=['mapping:log', 'mapping:linear', 'mapping:cubic', 'pos:dense', 'pos:sparse', 'pos:paginated', 'has-neg', 'has-zero', 'has-submin', 'has-edge-value', 'extreme-magnitude', 'q-on-integer-rank', 'interior-q-across-bins', 'custom-offset'],
+        units=[U('^TestC01$', (8, 12000), (14, 150000)), U('^TestC01_LargeScale$', (4, 150), (2, 4000))],
+        essential_labels=['mapping:log', 'mapping:linear', 'mapping:cubic', 'pos:dense', 'pos:sparse', 'pos:paginated', 'has-neg', 'has-zero', 'has-submin', 'has-edge-value', 'extreme-magnitude', 'q-on-integer-rank', 'interior-q-across-bins', 'custom-offset', 'large-scale', 'queries-interleaved-with-adds'],
         assumptions=COMMON_ASSUMPTIONS + ["floating-point slack 64*2^-52*(1+|ln v|+(|i|+|offset|)*ln gamma) is allowed on top of alpha (DESIGN §1.1)", "dense/paginated sketches draw values from an index window of at most 2^14 bins (memory)"],
     ),
     'C02': dict(
@@ -56,16 +56,18 @@ CHECKS = {
         units=[
             U('^TestC04_Dense$', (3, 500, 50), (5, 2500, 100)),
             U('^TestC04_Sparse$', (3, 500, 50), (5, 2500, 100)),
-            U('^TestC04_Paginated$', (4, 500, 50), (6, 2500, 100)),
+            U('^TestC04_Paginated$', (4, 500, 50), (4, 2500, 100)),
+            U('^TestC04_LargeScale$', (3, 200), (2, 6000)),
         ],
-        essential_labels=['kind:dense', 'kind:sparse', 'kind:paginated', 'event:array-shift', 'event:page-created', 'event:buffer-compacted', 'op:merge', 'op:encdec', 'op:proto', 'op:reweight', 'op:copy', 'op:clear'],
+        essential_labels=['kind:dense', 'kind:sparse', 'kind:paginated', 'event:array-shift', 'event:page-created', 'event:buffer-compacted', 'op:merge', 'op:encdec', 'op:proto', 'op:reweight', 'op:copy', 'op:clear', 'large-scale', 'shape:round-robin'],
         assumptions=COMMON_ASSUMPTIONS + ["weights are dyadic and bounded so that every float64 partial sum is exact (DESIGN §1.1); index spans are capped per store kind by memory"],
     ),
     'C05': dict(
         level='exploration',
         units=[
             U('^TestC05_Stores$', (8, 2500, 60), (12, 10000, 100)),
-            U('^TestC05_Sketch$', (4, 3000), (4, 15000)),
+            U('^TestC05_Sketch$', (4, 3000), (3, 15000)),
+            U('^TestC05_LargeScale$', (2, 150), (1, 6000)),
         ],
         essential_labels=['kind:collow', 'kind:colhigh', 'folded', 'op-after-fold', 'merge-same-kind', 'merge-wide-into-empty', 'add-beyond-edge-after-collapse'],
         assumptions=COMMON_ASSUMPTIONS + ["fold(M,N) model: folding is history-independent (DESIGN §2 C05); dyadic weights"],
@@ -91,7 +93,7 @@ CHECKS = {
     'C09': dict(
         level='exploration',
         units=[U('^TestC09_History$', (6, 5000), (8, 40000)), U('^TestC09_ArbitraryWeights$', (3, 8000), (4, 50000)), U('^TestC09_HandBuilt$', (3, 8000), (4, 50000))],
-        essential_labels=['mode:A', 'mode:B', 'mode:C', 'shape:sparse', 'shape:contiguous', 'shape:both', 'nil-store-message', 'negative-offset', 'custom-offset', 'target:collow', 'target:paginated', 'source:paginated', 'source:sparse', 'cleared-then-refilled'],
+        essential_labels=['mode:A', 'mode:B', 'mode:C', 'shape:sparse', 'shape:contiguous', 'shape:both', 'nil-store-message', 'negative-offset', 'custom-offset', 'contiguous-run>=63', 'target:collow', 'target:paginated', 'source:paginated', 'source:sparse', 'cleared-then-refilled'],
         assumptions=COMMON_ASSUMPTIONS + ["google.golang.org/protobuf Marshal/Unmarshal/Equal are trusted"],
     ),
     'C10': dict(
